@@ -2117,7 +2117,7 @@ fn main() {
             let found: Vec<Value> = rs.iter().filter_map(|r| r.1 .1.clone().map(|d| json!({"search": r.0, "disagreement": d}))).collect();
             json!({"ok": true, "found": !found.is_empty(), "cases": cases, "searches": rs.iter().map(|r| json!({"name": r.0, "cases": r.1.0})).collect::<Vec<_>>(), "disagreements": found,
                    "bound": match pid {
-                       "C17" => "debug_display_leaks: Debug/Display renderings of the five key types and of GetSigningKeyResponse searched for the secret and the derived keys (hex, decimal); differential_leak_scan: BOUNDED, 50 000 pseudo-random requests, the error text and every debug-level log record of each refusal searched for the signature the reference model computed, the signing key and the secret",
+                       "C17" => "debug_display_leaks: Debug/Display renderings of the five key types, of GetSigningKeyResponse and of the KeyTooLongError for one over-long secret (directly, and as the error / Debug form / debug-level log records of sigv4_validate_request when the provider fails with it) searched for the secret and the derived keys (raw, hex, base64, decimal); differential_leak_scan: BOUNDED, 50 000 pseudo-random requests, the error text and every debug-level log record of each refusal searched for the signature the reference model computed, the signing key and the secret",
                        "C01" | "C02" | "C13" => "differential: BOUNDED, 50 000 pseudo-random reference-signed and mutated requests (seed VERIF_SEED) through sigv4_validate_request against the reference model of the whole validation; it checks the assumed contracts of the dependencies as much as the crate",
                        "C16" => "calendar_exhaustive: COMPLETE by native execution over every (y, m, d) the pattern admits (0000-9999 x 01-12 x 01-31) against chrono; regex_transcription: BOUNDED, 200 000 structured and mutated strings against the regex crate on the repository's exact pattern text",
                        _ => "fixed lists of Content-Type spellings / body lengths / requirement-set constructions: the COMPILED get_content_type_and_charset, trim_ascii, IntoRequestBytes impls and VecSignedHeaderRequirements mutators against the same specs their extracted text is verified against" }})
